@@ -17,14 +17,14 @@ TOL = 1e-9
 META = {
     "rule": "graph-shape family F(n,m) (families.py): n in {2,3} vertices of every type multiset, every multiset of 1..m candidate edges (type-correct odometry/landmark "
     "edges on every ordered pair, unary prior, ternary custom edges; duplicates = parallel edges). Sub-products: A = x every fixed subset x fix_first_pose x every vertex "
-    "list permutation; B = x every edge-list permutation; C = x id maps (negative, sparse, huge, id 0 on a non-first vertex) x fix_first_pose, and information scaled by 1e-9 x every fixed subset; H = histories: one iteration under fixed set S1, flags changed to S2 (every ordered pair of non-empty subsets), the next iteration is judged. Ill-posed configurations (a component without fixed vertex, or reduced "
+    "list permutation; B = x every edge-list permutation; C = x id maps (negative, sparse, huge, id 0 on a non-first vertex) x fix_first_pose, and information scaled by 1e-9 x every fixed subset; P = all vertices initialised from ONE shared pose object x every non-empty fixed subset; H = histories: one iteration under fixed set S1, flags changed to S2 (every ordered pair of non-empty subsets), the next iteration is judged. Ill-posed configurations (a component without fixed vertex, or reduced "
     "Hessian cond > 1e6, by the reference) are counted and skipped. Oracle: poses after optimize(max_iter=1) = pose [+] dx_ref (dense reduced normal equations assembled by "
     "vertex identity). non-trivial = at least one free vertex moves by more than 1e-6",
     "assumptions": [
         "e, J, Omega are taken from the edges themselves (C01/C02 own them); numpy dense solve/cond trusted",
         "tolerance 1e-9 x (1 + |dx| + translation scale) x max(1, cond/1e3)",
     ],
-    "required_classes": ["weak_information", "history", "parallel_edges", "edge_high_index_first", "mixed_dimensions", "two_or_more_fixed", "custom_unary", "custom_ternary", "ffp_true", "ffp_false", "ids_special", "edge_order_permuted", "isolated_fixed_vertex"],
+    "required_classes": ["shared_pose_object", "weak_information", "history", "parallel_edges", "edge_high_index_first", "mixed_dimensions", "two_or_more_fixed", "custom_unary", "custom_ternary", "ffp_true", "ffp_false", "ids_special", "edge_order_permuted", "isolated_fixed_vertex"],
     "bounds": {"quick": "n=2: m<=3; n=3: m<=2, vertex orders {identity, reversed, rotated}", "thorough": "n=2: m<=4; n=3: m<=3, all 6 vertex orders"},
 }
 
@@ -50,7 +50,7 @@ def chunks(tier, seed):
         for ti, types in enumerate(F.type_multisets(n)):
             nc = len(F.candidate_edges(types, seed))
             parts = 4 if (n == 3 and tier == "thorough") else 1
-            for sub in ("A", "B", "C", "H"):
+            for sub in ("A", "B", "C", "H") + (("P",) if len(set(types)) == 1 else ()):
                 for part in range(parts):
                     out.append((sub, n, ti, part, parts))
     return out
@@ -79,6 +79,13 @@ def run_chunk(chunk, tier, seed):
                     continue
                 for vo in ([list(range(n)), list(range(n))[::-1]]):
                     _do(acc, {"types": types, "seed": seed, "edges": ms, "fixed": fixed, "ffp": False, "vorder": vo, "eorder": list(eo), "ids": None})
+        elif sub == "P":
+            # object reuse: every vertex is initialised from ONE shared pose object; each free vertex must still take its own step
+            if len(ms) > 2:
+                continue
+            for fx in itertools.product((False, True), repeat=n):
+                if any(fx):
+                    _do(acc, {"types": types, "seed": seed, "edges": ms, "fixed": list(fx), "ffp": False, "vorder": list(range(n)), "eorder": None, "ids": None, "shared_pose_object": True})
         elif sub == "H":
             # history: one iteration with fixed set S1, flags changed to S2, the NEXT iteration must again be the exact GN step
             if len(ms) > 2:
@@ -183,8 +190,17 @@ def _eval(case):
 
 def _eval_inner(case):
     spec = spec_of(case)
+    if case.get("shared_pose_object"):
+        p0 = list(spec["vertices"][0]["pose"])
+        for v in spec["vertices"]:
+            v["pose"] = list(p0)
     g, verts, edges = GB.build(spec)
     pre = []
+    if case.get("shared_pose_object"):
+        shared = verts[0].pose
+        for v in verts:
+            v.pose = shared
+        pre = ["shared_pose_object"]
     if case.get("first_fixed"):
         # earlier call of the history, with another fixed set (list order = slot order here)
         for v, f in zip(verts, case["first_fixed"]):
@@ -197,7 +213,7 @@ def _eval_inner(case):
             return [], {"excluded": "first call of the history diverged"}
         for v, f in zip(verts, case["fixed"]):
             v.fixed = bool(f)
-        pre = ["history"]
+        pre = pre + ["history"]
     fixed_eff = [bool(v.fixed) for v in verts]
     if case["ffp"]:
         fixed_eff[0] = True
